@@ -297,7 +297,7 @@ def finish(acc, tier, seed):
             v["kind"] = "superlinear-work"
             keep.append(v)
     acc.violations = keep
-    if acc.counters.get("parses", 0) < (700 if tier == "quick" else 2500):
+    if acc.counters.get("parses", 0) < (500 if tier == "quick" else 2500):
         reasons.append(f"only {acc.counters.get('parses', 0)} measured parses")
     if acc.sets.get("valid_families_rejected"):
         reasons.append(f"valid families rejected by the parser: {sorted(acc.sets['valid_families_rejected'])}")
